@@ -47,8 +47,8 @@ Section SegLen.
     - destruct (segment_length _ _ _ _ _ f a m _ _ _) as [x|] eqn:E1; [|discriminate].
       destruct (segment_length _ _ _ _ _ f m b _ _ _) as [y|] eqn:E2; [|discriminate].
       intros H; injection H as <-.
-      apply IH in E1; auto. apply IH in E2; auto. cbn. lra.
-    - intros H; injection H as <-. cbn. lra.
+      apply IH in E1; auto. apply IH in E2; auto. cbn [add NumR]. lra.
+    - intros H; injection H as <-. cbn [add NumR]. lra.
   Qed.
 End SegLen.
 
@@ -80,19 +80,20 @@ Section Cubic.
   Lemma split4 : split_bezier NumR [p0; p1; p2; p3] z = ([p0; q1; q2; q3], [q3; r1; r2; p3]).
   Proof. reflexivity. Qed.
 
-  Lemma cubic_left_len : 0 <= z ->
-    curve_len (cubic_curve p0 q1 q2 q3) 0 1 = curve_len (cubic_curve p0 p1 p2 p3) 0 z.
+  Lemma cubic_left_len a b : 0 <= z ->
+    curve_len (cubic_curve p0 q1 q2 q3) a b = curve_len (cubic_curve p0 p1 p2 p3) (z * a) (z * b).
   Proof.
-    intros Z. rewrite (reparam_len (cubic_curve p0 p1 p2 p3) (cubic_curve p0 q1 q2 q3) z 0 0 1 Z).
+    intros Z. rewrite (reparam_len (cubic_curve p0 p1 p2 p3) (cubic_curve p0 q1 q2 q3) z 0 a b Z).
     - f_equal; ring.
     - intros t. unfold q3, q2, r1, q1, m1, r2, lerp. destruct p0, p1, p2, p3. cbn. ring.
     - intros t. unfold q3, q2, r1, q1, m1, r2, lerp. destruct p0, p1, p2, p3. cbn. ring.
   Qed.
-  Lemma cubic_right_len : z <= 1 ->
-    curve_len (cubic_curve q3 r1 r2 p3) 0 1 = curve_len (cubic_curve p0 p1 p2 p3) z 1.
+  Lemma cubic_right_len a b : z <= 1 ->
+    curve_len (cubic_curve q3 r1 r2 p3) a b
+    = curve_len (cubic_curve p0 p1 p2 p3) (z + (1 - z) * a) (z + (1 - z) * b).
   Proof.
     intros Z.
-    rewrite (reparam_len (cubic_curve p0 p1 p2 p3) (cubic_curve q3 r1 r2 p3) (1 - z) z 0 1); [|lra| |].
+    rewrite (reparam_len (cubic_curve p0 p1 p2 p3) (cubic_curve q3 r1 r2 p3) (1 - z) z a b); [|lra| |].
     - f_equal; ring.
     - intros t. unfold q3, q2, r1, q1, m1, r2, lerp. destruct p0, p1, p2, p3. cbn. ring.
     - intros t. unfold q3, q2, r1, q1, m1, r2, lerp. destruct p0, p1, p2, p3. cbn. ring.
@@ -125,10 +126,197 @@ Proof.
                    (lerp h (lerp h (lerp h s c1) (lerp h c1 c2)) (lerp h (lerp h c1 c2) (lerp h c2 e)))) as L.
     pose proof (IH (lerp h (lerp h (lerp h s c1) (lerp h c1 c2)) (lerp h (lerp h c1 c2) (lerp h c2 e)))
                    (lerp h (lerp h c1 c2) (lerp h c2 e)) (lerp h c2 e) e) as Rr.
-    rewrite (cubic_left_len s c1 c2 e h) in L by lra.
-    rewrite (cubic_right_len s c1 c2 e h) in Rr by lra.
+    rewrite (cubic_left_len s c1 c2 e h 0 1) in L by lra.
+    rewrite (cubic_right_len s c1 c2 e h 0 1) in Rr by lra.
+    replace (h * 0) with 0 in L by ring. replace (h * 1) with h in L by ring.
+    replace (h + (1 - h) * 0) with h in Rr by ring. replace (h + (1 - h) * 1) with 1 in Rr by ring.
     pose proof (arclen_additive _ _ (gdx_c (cubic_curve s c1 c2 e)) (gdy_c (cubic_curve s c1 c2 e)) 0 h 1) as Add.
     fold (curve_len (cubic_curve s c1 c2 e) 0 h) (curve_len (cubic_curve s c1 c2 e) h 1)
          (curve_len (cubic_curve s c1 c2 e) 0 1) in Add.
     cbn [add NumR]. lra.
 Qed.
+
+Theorem cubic_crop_bracket k s c1 c2 e t0 t1 : 0 <= t0 <= t1 -> 0 < t1 ->
+  fst (bez_bracket NumR NumTR k (bez_crop NumR [s; c1; c2; e] t0 t1))
+  <= curve_len (cubic_curve s c1 c2 e) t0 t1
+  <= snd (bez_bracket NumR NumTR k (bez_crop NumR [s; c1; c2; e] t0 t1)).
+Proof.
+  intros H0 H1. unfold bez_crop. rewrite split4. cbn [fst]. rewrite split4. cbn [snd].
+  set (z := div NumR t0 t1).
+  assert (Hz : 0 <= z <= 1).
+  { unfold z; cbn. split.
+    - apply Rmult_le_pos; [lra|]. left. apply Rinv_0_lt_compat. lra.
+    - apply (Rmult_le_reg_r t1); [lra|]. field_simplify; lra. }
+  assert (Ez : t1 * z = t0) by (unfold z; cbn; field; lra).
+  match goal with |- fst (bez_bracket _ _ _ [?a; ?b; ?c; ?d]) <= _ <= _ =>
+    pose proof (cubic_bracket k a b c d) as B;
+    rewrite (cubic_right_len _ _ _ _ z 0 1) in B by lra;
+    rewrite (cubic_left_len s c1 c2 e t1) in B by lra end.
+  replace (t1 * (z + (1 - z) * 0)) with t0 in B by (rewrite <- Ez; ring).
+  replace (t1 * (z + (1 - z) * 1)) with t1 in B by ring.
+  exact B.
+Qed.
+
+(* ---------------- quadratic ---------------- *)
+Section Quad.
+  Variables p0 p1 p2 : Cplx R.
+  Variable z : R.
+  Let q1 := lerp z p0 p1. Let r1 := lerp z p1 p2. Let q2 := lerp z q1 r1.
+
+  Lemma split3 : split_bezier NumR [p0; p1; p2] z = ([p0; q1; q2], [q2; r1; p2]).
+  Proof. reflexivity. Qed.
+
+  Lemma quad_left_len a b : 0 <= z ->
+    curve_len (quad_curve p0 q1 q2) a b = curve_len (quad_curve p0 p1 p2) (z * a) (z * b).
+  Proof.
+    intros Z. rewrite (reparam_len (quad_curve p0 p1 p2) (quad_curve p0 q1 q2) z 0 a b Z).
+    - f_equal; ring.
+    - intros t. unfold q2, q1, r1, lerp. destruct p0, p1, p2. cbn. ring.
+    - intros t. unfold q2, q1, r1, lerp. destruct p0, p1, p2. cbn. ring.
+  Qed.
+  Lemma quad_right_len a b : z <= 1 ->
+    curve_len (quad_curve q2 r1 p2) a b
+    = curve_len (quad_curve p0 p1 p2) (z + (1 - z) * a) (z + (1 - z) * b).
+  Proof.
+    intros Z.
+    rewrite (reparam_len (quad_curve p0 p1 p2) (quad_curve q2 r1 p2) (1 - z) z a b); [|lra| |].
+    - f_equal; ring.
+    - intros t. unfold q2, q1, r1, lerp. destruct p0, p1, p2. cbn. ring.
+    - intros t. unfold q2, q1, r1, lerp. destruct p0, p1, p2. cbn. ring.
+  Qed.
+End Quad.
+
+Lemma quad_chord01 s c e :
+  chord_len NumR NumTR [s; c; e] = chord (quad_curve s c e) 0 1.
+Proof.
+  unfold chord_len. rewrite cabs_R. unfold chord. fold (hyp
+    (gx (quad_curve s c e) 1 - gx (quad_curve s c e) 0)
+    (gy (quad_curve s c e) 1 - gy (quad_curve s c e) 0)).
+  destruct s, c, e. cbn. f_equal; ring.
+Qed.
+Lemma quad_ctrl_len s c e : ctrl_len NumR NumTR [s; c; e] = ctrl2 s c e.
+Proof. unfold ctrl2. cbn. ring. Qed.
+
+Theorem quad_bracket k : forall s c e,
+  fst (bez_bracket NumR NumTR k [s; c; e]) <= curve_len (quad_curve s c e) 0 1
+  <= snd (bez_bracket NumR NumTR k [s; c; e]).
+Proof.
+  induction k as [|k IH]; intros s c e.
+  - cbn [bez_bracket fst snd]. rewrite quad_chord01, quad_ctrl_len. split.
+    + apply chord_le_arclen. lra.
+    + apply quad_ctrl_polygon.
+  - cbn [bez_bracket]. rewrite split3. cbn [fst snd].
+    set (h := half NumR).
+    assert (Hh : 0 <= h <= 1) by (unfold h, half; cbn; lra).
+    pose proof (IH s (lerp h s c) (lerp h (lerp h s c) (lerp h c e))) as L.
+    pose proof (IH (lerp h (lerp h s c) (lerp h c e)) (lerp h c e) e) as Rr.
+    rewrite (quad_left_len s c e h 0 1) in L by lra.
+    rewrite (quad_right_len s c e h 0 1) in Rr by lra.
+    replace (h * 0) with 0 in L by ring. replace (h * 1) with h in L by ring.
+    replace (h + (1 - h) * 0) with h in Rr by ring. replace (h + (1 - h) * 1) with 1 in Rr by ring.
+    pose proof (arclen_additive _ _ (gdx_c (quad_curve s c e)) (gdy_c (quad_curve s c e)) 0 h 1) as Add.
+    fold (curve_len (quad_curve s c e) 0 h) (curve_len (quad_curve s c e) h 1)
+         (curve_len (quad_curve s c e) 0 1) in Add.
+    cbn [add NumR]. lra.
+Qed.
+
+Theorem quad_crop_bracket k s c e t0 t1 : 0 <= t0 <= t1 -> 0 < t1 ->
+  fst (bez_bracket NumR NumTR k (bez_crop NumR [s; c; e] t0 t1))
+  <= curve_len (quad_curve s c e) t0 t1
+  <= snd (bez_bracket NumR NumTR k (bez_crop NumR [s; c; e] t0 t1)).
+Proof.
+  intros H0 H1. unfold bez_crop. rewrite split3. cbn [fst]. rewrite split3. cbn [snd].
+  set (z := div NumR t0 t1).
+  assert (Hz : 0 <= z <= 1).
+  { unfold z; cbn. split.
+    - apply Rmult_le_pos; [lra|]. left. apply Rinv_0_lt_compat. lra.
+    - apply (Rmult_le_reg_r t1); [lra|]. field_simplify; lra. }
+  assert (Ez : t1 * z = t0) by (unfold z; cbn; field; lra).
+  match goal with |- fst (bez_bracket _ _ _ [?xa; ?xb; ?xc]) <= _ <= _ =>
+    pose proof (quad_bracket k xa xb xc) as B;
+    rewrite (quad_right_len _ _ _ z 0 1) in B by lra;
+    rewrite (quad_left_len s c e t1) in B by lra end.
+  replace (t1 * (z + (1 - z) * 0)) with t0 in B by (rewrite <- Ez; ring).
+  replace (t1 * (z + (1 - z) * 1)) with t1 in B by ring.
+  exact B.
+Qed.
+
+(* ---------------- partitions with an antiderivative of speed^2 ---------------- *)
+Section Part.
+  Variable g : C1curve.
+  Variable G : R -> R.
+  Hypothesis G_d : forall t, is_derive G t (gdx g t ^ 2 + gdy g t ^ 2).
+  Let pt (t : R) : Cplx R := (gx g t, gy g t).
+
+  Lemma speed_sq t : speed (gdx g) (gdy g) t ^ 2 = gdx g t ^ 2 + gdy g t ^ 2.
+  Proof. unfold speed. rewrite <- Rsqr_pow2, Rsqr_sqrt; [reflexivity|nra]. Qed.
+
+  Lemma cell_upper a b : a <= b -> curve_len g a b <= sqrt ((b - a) * (G b - G a)).
+  Proof.
+    intros H. unfold curve_len, arclen.
+    pose proof (speed_continuous (gdx g) (gdy g) (gdx_c g) (gdy_c g)) as Cs.
+    eapply Rle_trans; [apply (RInt_cauchy_schwarz (speed (gdx g) (gdy g)) Cs); auto|].
+    right. f_equal. f_equal.
+    rewrite (RInt_of_antideriv G (fun t => speed (gdx g) (gdy g) t ^ 2)); [reflexivity| |].
+    - intros t. rewrite speed_sq. apply G_d.
+    - intros t. apply cf2. exact Cs.
+  Qed.
+
+  Theorem part_bracket_encloses ps : forall a, sorted_from a ps ->
+    fst (part_bracket NumR NumTR pt G a ps) <= curve_len g a (last ps a)
+    <= snd (part_bracket NumR NumTR pt G a ps).
+  Proof.
+    induction ps as [|p r IH]; intros a Hs.
+    - cbn. unfold curve_len. rewrite arclen_point; auto using gdx_c, gdy_c. lra.
+    - destruct Hs as [Hap Hr]. rewrite last_cons. cbn [part_bracket fst snd].
+      specialize (IH p Hr).
+      pose proof (arclen_additive _ _ (gdx_c g) (gdy_c g) a p (last r p)) as Add.
+      fold (curve_len g a p) (curve_len g p (last r p)) (curve_len g a (last r p)) in Add.
+      pose proof (chord_le_arclen g a p Hap) as C.
+      pose proof (cell_upper a p Hap) as U.
+      change (cabs NumTR (csub NumR (pt p) (pt a))) with (cabs NumTR (csub NumR (pt p) (pt a))).
+      rewrite cabs_R. change (hyp _ _) with (chord g a p).
+      cbn [add NumR sub NumR mul NumR sqrt_ NumTR]. lra.
+  Qed.
+End Part.
+
+Lemma sorted_b_from a ps : sorted_b NumR a ps = true -> sorted_from a ps.
+Proof.
+  revert a; induction ps as [|p r IH]; intros a; cbn; auto.
+  intros H. apply andb_prop in H as [H1 H2]. split; [now apply Rle_b_true|auto].
+Qed.
+
+(* ---------------- the elliptical arc ---------------- *)
+Section Arc.
+  Variables rx ry cph sph : R.
+  Variable center : Cplx R.
+  Variables theta delta : R.
+
+  Definition arc_curve : C1curve.
+  Proof.
+    refine (@mkC1 (fun t => fst (arc_pt NumR NumTR rx ry cph sph center theta delta t))
+                  (fun t => snd (arc_pt NumR NumTR rx ry cph sph center theta delta t))
+                  (fun t => fst (arc_d1 NumR NumTR rx ry cph sph theta delta t))
+                  (fun t => snd (arc_d1 NumR NumTR rx ry cph sph theta delta t)) _ _ _ _);
+      destruct center; intros t; unfold arc_pt, arc_d1, arc_angle; cbn -[PI cos sin].
+    - auto_derive; [exact I|cbn -[PI cos sin]; ring].
+    - auto_derive; [exact I|cbn -[PI cos sin]; ring].
+    - match goal with |- continuous ?f ?t =>
+        apply (@ex_derive_continuous R_AbsRing R_NormedModule f t); auto_derive; exact I end.
+    - match goal with |- continuous ?f ?t =>
+        apply (@ex_derive_continuous R_AbsRing R_NormedModule f t); auto_derive; exact I end.
+  Defined.
+
+  Lemma arc_G_deriv t :
+    is_derive (arc_G NumR NumTR rx ry cph sph theta delta) t
+              (gdx arc_curve t ^ 2 + gdy arc_curve t ^ 2).
+  Proof.
+    unfold arc_G, arc_angle. cbn -[PI cos sin].
+    auto_derive; [exact I|].
+    unfold arc_d1, arc_angle. cbn -[PI cos sin].
+    set (an := (theta + t * delta) * PI / _).
+    pose proof (sin2_cos2 an) as SC. unfold Rsqr in SC.
+    set (S := sin an) in *. set (C := cos an) in *.
+    replace 1 with (S * S + C * C) at 1 by exact SC. Show.
+  Abort.
+End Arc.
